@@ -395,7 +395,9 @@ def normalize_url(
 
     # Dropping fragment if it's not routing
     if fragment and strip_fragment:
-        if strip_fragment is True or not should_strip_fragment(fragment):
+        if strip_fragment is True or not should_strip_fragment(
+            safely_unquote_fragment(fragment)
+        ):
             fragment = ""
 
     # Always dropping trailing slash with empty query & fragment
